@@ -56,6 +56,13 @@ theorem lifeOf_failures (l : List FailRec) : lifeOf (l.map Ev.failure) = [] := b
   | nil => rfl
   | cons a l ih => simp [Ev.tag?, ih]
 
+@[simp] theorem lifeOf_vv (cfg : Cfg) (s : String) : lifeOf (vv cfg s) = [] := by
+  unfold vv; split <;> simp [Ev.tag?]
+@[simp] theorem lifeOf_vvU (cfg : Cfg) (s : String) : lifeOf (vvU cfg s) = [] := by
+  unfold vvU; split <;> simp [Ev.tag?]
+@[simp] theorem lifeOf_vvTail (cfg : Cfg) (ph : Phase) (e : Exit) : lifeOf (vvTail cfg ph e) = [] := by
+  unfold vvTail; split <;> simp
+
 /-! ## the phases emit no plugin action -/
 
 theorem lifeOf_runStmts (cfg : Cfg) (t : Test) (ph : Phase) (d : Int) :
@@ -68,7 +75,8 @@ theorem lifeOf_runStmts (cfg : Cfg) (t : Test) (ph : Phase) (d : Int) :
 
 theorem lifeOf_phaseStep (cfg : Cfg) (t : Test) (ph : Phase) (st : TSt) :
     lifeOf (phaseStep cfg t ph st).evs = [.phase ph] := by
-  simp only [phaseStep, phaseEvs, phaseOut, lifeOf_append, lifeOf_cons, lifeOf_runStmts, lifeOf_failures]
+  simp only [phaseStep, phaseEvs, phaseOut, lifeOf_append, lifeOf_cons, lifeOf_runStmts, lifeOf_failures, lifeOf_vvU,
+    lifeOf_vvTail]
   simp [Ev.tag?]
 
 theorem lifeOf_utestClosed (cfg : Cfg) (t : Test) (st : TSt) :
@@ -121,10 +129,10 @@ theorem test_lifecycle (cfg : Cfg) (plugins : List Runner.Plugin) (t : Test) (st
   have hb := inBuf_of h0 h1
   unfold runOneTest setJmp
   simp only [hb.1, Bool.not_true, Bool.false_eq_true, if_false, runOneTestInCurrentProcess]
-  rw [utestRun_closed cfg t _ hr (by simpa using hb.2)]
-  simp only [setJmpAfter, afterRun]
+  rw [utestRun_closed cfg t _ (quiet_of_rethrow_off hr t) (by simpa using hb.2)]
+  simp only [setJmpAfter, afterRun, beforeRun]
   refine ⟨_, rfl, ?_⟩
-  simp only [lifeOf_append, lifeOf_utestClosed]
+  simp only [lifeOf_append, lifeOf_utestClosed, lifeOf_vv, List.nil_append, List.append_nil]
   rw [pre_actions_agree cfg t plugins _ 0, post_actions_agree cfg t plugins _ 0]
   rfl
 
@@ -186,11 +194,16 @@ def exT : Test :=
     setup := [.mark 1], body := [.failCpp ⟨"t.cpp", 12⟩ "boom", .mark 2], teardown := [.mark 3] }
 
 def exCfg : Cfg :=
-  { exceptions := true, rethrow := false, verbose := false, runIgnored := false, groupFilters := [], nameFilters := [],
-    stdExcMsg := "std", otherExcMsg := "other" }
+  { exceptions := true, rethrow := false, verbose := false, veryVerbose := true, color := false, runIgnored := false,
+    groupFilters := [], nameFilters := [], stdExcMsg := "std", otherExcMsg := "other", clock := [] }
 
-example : (match runOneTest exCfg exPlugins exT ⟨{}, false, 0, none⟩ with | .ok j => lifeOf j.evs | .error _ => []) =
-    [.pre "a", .pre "b", .phase .setup, .phase .body, .phase .teardown, .post "b", .post "a"] := by decide
+/-- the life-cycle theorem applied to a concrete chain (one plugin disabled), with the `-vv` trace switched on -/
+example : ∃ j, runOneTest exCfg exPlugins exT ⟨{}, false, 0, none⟩ = .ok j ∧
+    lifeOf j.evs = [.pre "a", .pre "b", .phase .setup, .phase .body, .phase .teardown, .post "b", .post "a"] := by
+  obtain ⟨j, hj, hl⟩ := test_lifecycle_ordered exCfg exPlugins exT ⟨{}, false, 0, none⟩ rfl (by decide) (by decide)
+  refine ⟨j, hj, ?_⟩
+  rw [hl]
+  decide
 
 example : Plugins.runAllPre (toChain exPlugins) = ["a", "b"] ∧ Plugins.runAllPost (toChain exPlugins) = ["b", "a"] := by
   decide
